@@ -67,6 +67,18 @@ def snapshot_stage(I, stage: V) -> dict:
     return snap
 
 
+def _note_version(I, stage, eff) -> None:
+    """Ghost for C07: the version a store presents to the guard, against the version the row had when this object was
+    loaded plus the number of this object's own successful stores since (the only legitimate source of a version)."""
+    if not isinstance(stage, SObj):
+        return
+    ld = loaded_info(I, stage)
+    if "version" not in ld:
+        return
+    eff.data["ver_presented"] = I.ops.as_int(I.getattr(stage, "version"))
+    eff.data["ver_legit"] = I.ops.as_int(ld["version"]) + I.st.objs[stage.oid].meta.get("ver_bumps", 0)
+
+
 def loaded_info(I, obj: V) -> dict:
     if isinstance(obj, SObj):
         return I.st.objs[obj.oid].meta.get("loaded", {})
@@ -208,9 +220,14 @@ class StoreModel:
 
         def exit_(I2, cm, exc):
             I2.st.ghost["open_txn"] = None
+            staged = I2.st.ghost.get("txn_staged", {}).pop(n, [])
             if exc is None:
                 I2.st.emit("txn_commit", txn=n)
             else:
+                # rollback_versions (proved for the real store.transaction in L1, C07/rollback-restores)
+                for oid, ver, bumps in reversed(staged):
+                    I2.st.objs[oid].fields["version"] = ver
+                    I2.st.objs[oid].meta["ver_bumps"] = bumps
                 I2.st.emit("txn_rollback", txn=n, exc=exc)
             return False
 
@@ -228,13 +245,17 @@ class StoreModel:
         snap = snapshot_stage(I, stage)
         eff = I.st.emit("store_stage", txn=self._txn_id(I, txn), stage=stage, snap=snap, expected_phase=expected,
                         loaded=dict(loaded_info(I, stage)))
+        _note_version(I, stage, eff)
         if I.st.choose("concurrency_error"):
             eff.data["failed"] = True
             raise_exc(I, "ConcurrencyError", "stabilize.errors")
         # success: the in-memory version is bumped (proved for the real AtomicTransaction.store_stage in L1)
         if isinstance(stage, SObj):
             ver = I.getattr(stage, "version")
-            I.st.objs[stage.oid].fields["version"] = SInt(I.ops.as_int(ver) + 1)
+            rec = I.st.objs[stage.oid]
+            I.st.ghost.setdefault("txn_staged", {}).setdefault(self._txn_id(I, txn), []).append((stage.oid, ver, rec.meta.get("ver_bumps", 0)))
+            rec.fields["version"] = SInt(I.ops.as_int(ver) + 1)
+            rec.meta["ver_bumps"] = rec.meta.get("ver_bumps", 0) + 1
         return SNone
 
     def txn_push(self, I, a, k):
@@ -272,12 +293,16 @@ class StoreModel:
             if name == "store_stage":
                 data["snap"] = snapshot_stage(I, a[1])
                 data["loaded"] = dict(loaded_info(I, a[1]))
-            I.st.emit("standalone", **data)
+            eff = I.st.emit("standalone", **data)
+            if name == "store_stage":
+                _note_version(I, a[1], eff)
             if name in ("store_stage",) and I.st.choose("concurrency_error"):
                 raise_exc(I, "ConcurrencyError", "stabilize.errors")
             if name == "store_stage" and isinstance(a[1], SObj):
                 ver = I.getattr(a[1], "version")
-                I.st.objs[a[1].oid].fields["version"] = SInt(I.ops.as_int(ver) + 1)
+                rec = I.st.objs[a[1].oid]
+                rec.fields["version"] = SInt(I.ops.as_int(ver) + 1)
+                rec.meta["ver_bumps"] = rec.meta.get("ver_bumps", 0) + 1
             return SNone
         return f
 
